@@ -269,7 +269,8 @@ theorem c02lift_parseEvents_local (G : List Nat) (env : Env) (e : Ext) (ha : Agr
 
 /-- Boolean form of `LocalTo` (for `AllBlocksOf`) -/
 def localToB (G : List Nat) (cs : CharSpec) (ts : List Tok) : Bool :=
-  ((decide (Gen.EXT_COMPONENT_MODIFIERS ∈ G) && decide (Gen.EXT_INTERMEDIATE_PREPARATIONS ∈ G)) || modsCore ts) &&
+  ((decide (Gen.EXT_COMPONENT_MODIFIERS ∈ G) && (decide (Gen.EXT_INTERMEDIATE_PREPARATIONS ∈ G) || interCore ts)) ||
+    modsCore ts) &&
   (decide (Gen.EXT_COMPONENT_ALIAS ∈ G) || aliasCore ts) &&
   (decide (Gen.EXT_RANGE_VALUES ∈ G) || rangeCore ts) &&
   (decide (Gen.EXT_ADVANCED_UNITS ∈ G) || advCore ts) &&
